@@ -39,3 +39,4 @@ PY
   esac
 done
 git status --short | grep '^UU\|^AA' || true
+if git diff --name-only --diff-filter=U | grep -q .; then echo "UNRESOLVED conflicts remain: resolve by hand before committing"; exit 1; fi
